@@ -51,33 +51,6 @@ Example c09_example :
   map o_face (r_outs (step s0 (EInterest 10 (mk [(8, 1)])) ch)) = [2].
 Proof. vm_compute. repeat split. Qed.
 
-(* ---------------------------------------------------------------------------------------------------------------------
-   Face-scope classification.  GenScope.v holds the scope-setting statements of every transport constructor of fw/face and the
-   switch of defn.URI.Scope(), translated from the source on every run; transport_scope c lb is the scope constructor c
-   (numbering in Scope.v) gives a face whose remote address is (lb = true) / is not (lb = false) a loopback IP address. *)
-From Fw Require Import ScopeDefs GenScope ScopeModel Scope.
-
-(* every constructor classifies as the specification says: IP transports (unicast TCP outgoing and accepted, unicast UDP,
-   WebSocket) Local iff the remote address is loopback; Unix stream and internal always Local; multicast UDP and null NonLocal *)
-Theorem c09_scope_classification : forall c lb, c < n_ctors -> transport_scope c lb = Some (spec_local c lb).
-Proof. exact scope_classification. Qed.
-Print Assumptions c09_scope_classification.
-
-(* tie to c09_scope: a face whose scope was assigned by an IP transport constructor for a non-loopback peer is non-local, so
-   no /localhost packet is ever transmitted on it *)
-Theorem c09_remote_peer_never_localhost : forall s0 (h : history) pre e r o g c,
-  In (pre, e, r) (trace s0 h) -> In o (r_outs r) -> get_face (faces pre) (o_face o) = Some g ->
-  c < n_ctors -> ctor_ip c = true -> transport_scope c false = Some (f_local g) ->
-  spec_localhost (o_name o) = false.
-Proof. exact remote_peer_never_localhost. Qed.
-Print Assumptions c09_remote_peer_never_localhost.
-
-Theorem c09_local_peer_local : forall c, c < n_ctors ->
-  (ctor_ip c = true -> transport_scope c true = Some true) /\
-  ((c = 3 \/ c = 5) -> forall lb, transport_scope c lb = Some true).
-Proof. exact local_peer_local. Qed.
-Print Assumptions c09_local_peer_local.
-
 (* Hypothesis made visible: c09_scope speaks about the face an id denotes in the forwarder's face map (get_face), i.e. it assumes
    a well-formed face table in which an id denotes one face.  The model's table has that shape after every history of face
    additions and removals (below); that the real face table never hands one id to two concurrently registered faces is
